@@ -45,7 +45,7 @@ META = {
     "bound": {"quick": "depth <= 3 plus a third of depth 4, antichains of <= 4 faults", "thorough": "depth <= 3 plus depth 4 over list/optional/flat-model middles, antichains of <= 5 faults"},
 }
 
-LAYOUTS = ("plain", "renamed", "flat", "aslist", "flatlist")
+LAYOUTS = ("plain", "renamed", "flat", "aslist", "flatlist", "flat2")
 _CLS_CACHE = {}
 
 
@@ -97,6 +97,7 @@ def model_keys(lay):
         "flat": (("n", "x"), ("f2",)),
         "aslist": ((0,), (1,)),
         "flatlist": (("point", 0), ("point", 1)),
+        "flat2": (("n", "m", "x"), ("n", "y")),
     }[lay]
 
 
@@ -134,6 +135,8 @@ def build(ts, recipe):
             kw["as_list"] = True
         elif lay == "flatlist":
             kw["map"] = {"f1": ("point", 0), "f2": ("point", 1)}
+        elif lay == "flat2":
+            kw["map"] = {"f1": ("n", "m", "x"), "f2": ("n", "y")}
         recipe.append(name_mapping(cls, **kw))
         return cls
     raise ValueError(ts)
@@ -279,10 +282,17 @@ def faults(ts, at=()):  # noqa: C901
             def plant_extra(root, at=at):
                 (_get(root, at) if at else root)["unknown"] = 1
             out.append(Fault("extra_key", (*at, "\0extra"), at, "extra_fields", plant_extra))
-            if lay == "flat":
+            if lay in ("flat", "flat2"):
                 def plant_extra_n(root, at=at):
                     (_get(root, (*at, "n")))["unknown"] = 1
                 out.append(Fault("extra_key_nested", (*at, "n", "\0extra"), (*at, "n"), "extra_fields", plant_extra_n))
+                # the branch node itself is of the wrong kind (a list where a mapping is expected): one error at the node,
+                # everything below it is gone, its siblings and the levels above are still checked
+                inner = (*at, "n", "m") if lay == "flat2" else (*at, "n")
+
+                def plant_wrong_kind(root, inner=inner):
+                    _set(root, inner, [1, 2])
+                out.append(Fault("node_wrong_kind", inner, inner, "type", plant_wrong_kind, kills=inner))
         else:
             def plant_long(root, at=at):
                 (_get(root, at) if at else root).append("extra-item")
